@@ -455,7 +455,8 @@ Hclose(int32 file_id)
 
     /* version tags */
     if ((file_rec->refcount > 0) && (file_rec->version.modified == 1))
-        HIupdate_version(file_id);
+        if (HIupdate_version(file_id) == FAIL)
+            HGOTO_ERROR(DFE_INTERNAL, FAIL);
 
     /* decrease the reference count */
     if (--file_rec->refcount == 0) {
